@@ -49,9 +49,16 @@ type Step struct {
 	Keep  bool   `json:"keep,omitempty"` // commit / cancel: the batch object is used again afterwards
 	Wraps []Wrap `json:"wraps,omitempty"`
 	Text  string `json:"text,omitempty"` // human-readable rendition (ignored on replay)
+	// workload disciplines (disc.go): user code that keeps and scribbles what it was handed, calls back
+	// into the store while it runs, and panics
+	Sub   []Step `json:"sub,omitempty"`   // calls made by the user code this operation invokes
+	At    int    `json:"at,omitempty"`    // sub-step: consumer invocation (1-based) that makes the call; 0 = the debug callback
+	Panic int    `json:"panic,omitempty"` // the consumer panics in its Panic-th invocation / the debug callback panics (1)
+	Hold  int    `json:"hold,omitempty"`  // results are kept untouched for Hold steps (compared after every call), then scribbled
 }
 
 type Case struct {
+	Part    string `json:"part,omitempty"` // "" = plain histories (in-process), "disc" = discipline histories (child process)
 	History int    `json:"history"`
 	Steps   []Step `json:"steps"`
 	Failed  string `json:"failed,omitempty"`
@@ -124,6 +131,7 @@ type stats struct {
 	sharedPairs       int
 	stacks            map[string]bool
 	realmShapes       map[string]bool
+	disc              map[string]int // counters of the workload disciplines (disc.go)
 }
 
 func newStats() *stats {
@@ -155,6 +163,8 @@ type runner struct {
 	all     []*gbuf
 	alias   []failure // writes into caller buffers (reported, the history continues)
 	stepNo  int
+
+	disciplines // disc.go
 }
 
 func q(b []byte) string  { return fmt.Sprintf("%q", b) }
@@ -184,6 +194,7 @@ type gbuf struct {
 	want   []byte // what the harness wrote there
 	minEnd int    // smallest end offset of a slice handed to the library
 	name   string
+	pooled bool // released: scribbled and waiting in the pool
 }
 
 func newTable(name string, content []byte, spare int) *gbuf {
@@ -231,6 +242,7 @@ func (r *runner) arg(content []byte, mode int) ([]byte, *gbuf) {
 		r.all = append(r.all, g)
 	}
 	g.name = "argument"
+	g.pooled = false
 	g.minEnd = n
 	copy(g.back, content)
 	for i := n; i < len(g.back); i++ {
@@ -289,9 +301,10 @@ func (r *runner) checkBuffers(op string) {
 // (after Set / Commit) and makes them available for later arguments.
 func (r *runner) release(gs ...*gbuf) {
 	for _, g := range gs {
-		if g == nil {
+		if g == nil || g.pooled {
 			continue
 		}
+		g.pooled = true
 		for i := range g.back {
 			g.back[i] = scribbleByte
 		}
@@ -344,6 +357,7 @@ func (r *runner) callerOwned(b []byte) bool {
 func scribble(bs ...[]byte) int {
 	n := 0
 	for _, b := range bs {
+		b = b[:cap(b)] // the spare capacity belongs to the caller too (append)
 		for i := range b {
 			b[i] = scribbleByte
 			n++
@@ -365,6 +379,10 @@ func (r *runner) callback(id int) debug.AccessCallback {
 			ev.params = append(ev.params, string(p))
 		}
 		r.log = append(r.log, ev)
+		if h := r.hook; h != nil {
+			r.hook = nil
+			h()
+		}
 	}
 }
 
@@ -417,12 +435,20 @@ func stackName(ls []layer) string {
 func (r *runner) guard(op string, f func()) (ok bool) {
 	defer func() {
 		if p := recover(); p != nil {
-			r.failf(op+"/panic", "%s panicked: %v", op, p)
 			ok = false
+			if _, mine := p.(userPanic); mine {
+				// the user code's own panic came back to the caller: fine; the store is used again
+				r.panicked = true
+				r.checkBuffers(op)
+				r.checkHeld(op)
+				return
+			}
+			r.failf(op+"/panic", "%s panicked: %v", op, p)
 		}
 	}()
 	f()
 	r.checkBuffers(op)
+	r.checkHeld(op)
 	return true
 }
 
@@ -511,9 +537,9 @@ func dirArgs(d int) []kvstore.IterDirection {
 	return nil
 }
 
-// exec executes one step against the real stores and the model.
-func (r *runner) exec(s Step) {
-	defer func() { r.stepNo++ }()
+// exec1 executes one step against the real stores and the model (exec, in
+// disc.go, wraps it with the bookkeeping of the workload disciplines).
+func (r *runner) exec1(s Step) {
 	r.st.ops[s.Op]++
 	r.st.evals++
 	closed := r.m.Closed
@@ -525,7 +551,6 @@ func (r *runner) exec(s Step) {
 		v = r.views[s.V]
 	}
 	r.log = nil
-	r.opBufs = r.opBufs[:0]
 	switch s.Op {
 	case "root":
 		if len(s.K) > 0 {
@@ -630,7 +655,7 @@ func (r *runner) exec(s Step) {
 			r.failf("Get/returns-caller-buffer", "Get(%s) in realm %s returned a slice that shares memory with a buffer of the caller (not a private copy)", q(s.K), qs(v.realm))
 			return
 		}
-		r.st.scribbles += scribble(val)
+		r.keep("Get", "value", val, s.Hold)
 
 	case "has":
 		var b bool
@@ -732,16 +757,24 @@ func (r *runner) exec(s Step) {
 		}
 		var got []kvmodel.KV
 		stopped, afterStop, owned := false, 0, false
+		// the iteration reports the entries present when it starts: what the consumer writes while it
+		// runs takes effect at once for every other call, not for what is still delivered
+		want := r.m.Iterate(v.realm, string(s.K), s.Dir == 2)
 		consume := func(k, val []byte) bool {
 			if stopped {
 				afterStop++
 			}
 			got = append(got, kvmodel.KV{K: string(k), V: string(val)})
+			r.checkHeld(name + " consumer")
 			if r.callerOwned(k) || r.callerOwned(val) {
 				owned = true
 			} else {
-				r.st.scribbles += scribble(k, val)
+				// kept untouched for a while (every second one), or scribbled at once, spare capacity included
+				h := s.Hold * (len(got) % 2)
+				r.keep(name, "key", k, h)
+				r.keep(name, "value", val, h)
 			}
+			r.consumerCalls(name, s, len(got), want)
 			if s.Stop > 0 && len(got) >= s.Stop {
 				stopped = true
 				return false
@@ -749,7 +782,7 @@ func (r *runner) exec(s Step) {
 			return true
 		}
 		var err error
-		if !r.guard(name, func() {
+		ok := r.guard(name, func() {
 			if s.Op == "iterate" {
 				k, _ := r.arg(s.K, s.KM)
 				err = v.st.Iterate(k, consume, dirArgs(s.Dir)...)
@@ -757,22 +790,31 @@ func (r *runner) exec(s Step) {
 				k, _ := r.arg(s.K, s.KM)
 				err = v.st.IterateKeys(k, func(k []byte) bool { return consume(k, nil) }, dirArgs(s.Dir)...)
 			}
-		}) {
+		})
+		consumerPanicked := r.panicked
+		r.panicked = false
+		if !ok && !consumerPanicked {
 			return
 		}
 		if closed {
 			wantClosed(r, name, err)
 			return
 		}
-		if s.Op == "iterate" {
-			r.expectEvents(name, v.layers, debug.IterateCommand, true, s.K)
+		if consumerPanicked {
+			// the consumer's panic ended the call: it has delivered the first Panic entries
+			r.log = nil
+			r.userPanic("consumer")
+			s.Stop = s.Panic
 		} else {
-			r.expectEvents(name, v.layers, debug.IterateKeysCommand, true, s.K)
+			if s.Op == "iterate" {
+				r.expectEvents(name, v.layers, debug.IterateCommand, true, s.K)
+			} else {
+				r.expectEvents(name, v.layers, debug.IterateKeysCommand, true, s.K)
+			}
+			if !wantNil(r, name, err) {
+				return
+			}
 		}
-		if !wantNil(r, name, err) {
-			return
-		}
-		want := r.m.Iterate(v.realm, string(s.K), s.Dir == 2)
 		if s.Op == "iteratekeys" {
 			for i := range want {
 				want[i].V = ""
@@ -875,6 +917,9 @@ func (r *runner) exec(s Step) {
 		r.batches = append(r.batches, &batch{b: b, view: s.V})
 
 	case "bset", "bdel":
+		if s.B == -1 {
+			s.B = len(r.batches) - 1 // sub-steps: the batch opened last
+		}
 		if s.B < 0 || s.B >= len(r.batches) || r.batches[s.B].done {
 			return
 		}
@@ -928,6 +973,9 @@ func (r *runner) exec(s Step) {
 		}
 
 	case "commit", "cancel":
+		if s.B == -1 {
+			s.B = len(r.batches) - 1 // sub-steps: the batch opened last
+		}
 		if s.B < 0 || s.B >= len(r.batches) || r.batches[s.B].done {
 			return
 		}
@@ -1085,8 +1133,9 @@ func (r *runner) finalSweep() {
 var alpha = []string{"", "a", "ab", "a\xff", "\xff", "b"}
 
 type gen struct {
-	rng *rand.Rand
-	r   *runner
+	rng  *rand.Rand
+	r    *runner
+	disc bool // generate the workload disciplines of disc.go too
 }
 
 func (g *gen) word() string {
@@ -1219,6 +1268,9 @@ func (g *gen) next(postClose bool) Step {
 	}
 	ws := []weighted{{"get", 14}, {"has", 7}, {"set", 18}, {"delete", 5}, {"deleteprefix", 4}, {"clear", 1},
 		{"iterate", 8}, {"iteratekeys", 5}, {"realm", 1}, {"flush", 1}}
+	if g.disc {
+		ws[6].w, ws[7].w = 18, 14 // more iterations: their consumers are the user code under test
+	}
 	if len(r.views) < 8 {
 		w := 4
 		if len(r.views) < 3 {
@@ -1312,6 +1364,9 @@ func (g *gen) next(postClose bool) Step {
 			s.Keep = rng.Intn(5) < 3
 		}
 	}
+	if g.disc && !postClose {
+		g.discipline(&s, 0)
+	}
 	return s
 }
 
@@ -1337,30 +1392,38 @@ func describe(r *runner, s Step) string {
 	case "newview":
 		return fmt.Sprintf("%s.newview(ext=%v, %q%s) wraps=%v", vr, s.Ext, s.K, m(s.KM), s.Wraps)
 	case "set":
-		return fmt.Sprintf("%s.Set(%q%s, %q%s)", vr, s.K, m(s.KM), s.Val, m(s.VM))
+		return fmt.Sprintf("%s.Set(%q%s, %q%s)", vr, s.K, m(s.KM), s.Val, m(s.VM)) + describeUser(r, s)
 	case "bset":
-		return fmt.Sprintf("batch%d.Set(%q%s, %q%s)", s.B, s.K, m(s.KM), s.Val, m(s.VM))
+		return fmt.Sprintf("batch%d.Set(%q%s, %q%s)", s.B, s.K, m(s.KM), s.Val, m(s.VM)) + describeUser(r, s)
 	case "bdel":
-		return fmt.Sprintf("batch%d.Delete(%q%s)", s.B, s.K, m(s.KM))
+		return fmt.Sprintf("batch%d.Delete(%q%s)", s.B, s.K, m(s.KM)) + describeUser(r, s)
 	case "commit", "cancel":
 		if s.Keep {
 			return fmt.Sprintf("batch%d.%s() [object used again]", s.B, s.Op)
 		}
 		return fmt.Sprintf("batch%d.%s()", s.B, s.Op)
 	case "iterate", "iteratekeys":
-		return fmt.Sprintf("%s.%s(%q, dir=%d, stop=%d)", vr, s.Op, s.K, s.Dir, s.Stop)
+		return fmt.Sprintf("%s.%s(%q, dir=%d, stop=%d)", vr, s.Op, s.K, s.Dir, s.Stop) + describeUser(r, s)
 	}
-	return fmt.Sprintf("%s.%s(%q%s)", vr, s.Op, s.K, m(s.KM))
+	return fmt.Sprintf("%s.%s(%q%s)", vr, s.Op, s.K, m(s.KM)) + describeUser(r, s)
 }
 
 // runHistory generates and executes one history; steps are recorded for replay.
 func runHistory(rng *rand.Rand, nSteps int, st *stats) ([]failure, []Step) {
+	return runHistoryX(rng, nSteps, st, false, nil)
+}
+
+func runHistoryX(rng *rand.Rand, nSteps int, st *stats, disc bool, trace func(kind string, v any)) ([]failure, []Step) {
 	r := &runner{m: kvmodel.New(), st: st, writer: map[string]int{}}
-	g := &gen{rng: rng, r: r}
+	r.disc, r.trace = disc, trace
+	g := &gen{rng: rng, r: r, disc: disc}
 	var steps []Step
 	do := func(s Step) bool {
 		s.Text = describe(r, s)
 		steps = append(steps, s)
+		if trace != nil {
+			trace("step", s)
+		}
 		r.exec(s)
 		return r.fail == nil
 	}
@@ -1369,7 +1432,7 @@ func runHistory(rng *rand.Rand, nSteps int, st *stats) ([]failure, []Step) {
 		return r.failures(), steps
 	}
 	closeAt := -1
-	if rng.Intn(10) < 6 {
+	if rng.Intn(10) < 6 && (!disc || rng.Intn(3) == 0) {
 		closeAt = nSteps/2 + rng.Intn(nSteps/2)
 	}
 	for i := 1; i < nSteps; i++ {
@@ -1421,8 +1484,16 @@ func (r *runner) failures() []failure {
 }
 
 func replaySteps(steps []Step, st *stats) []failure {
+	return replayStepsX(steps, st, false, nil)
+}
+
+func replayStepsX(steps []Step, st *stats, disc bool, trace func(kind string, v any)) []failure {
 	r := &runner{m: kvmodel.New(), st: st, writer: map[string]int{}}
+	r.disc, r.trace = disc, trace
 	for _, s := range steps {
+		if trace != nil {
+			trace("step", s)
+		}
 		r.exec(s)
 		if r.fail != nil {
 			return r.failures()
@@ -1441,6 +1512,10 @@ func run(c *vf.Ctx) {
 			fmt.Fprintln(os.Stderr, err)
 			os.Exit(3)
 		}
+		if cs.Part == "disc" {
+			replayDisc(c, cs)
+			return
+		}
 		st := newStats()
 		for _, f := range replaySteps(cs.Steps, st) {
 			c.Violation(f.fp, f.what, cs)
@@ -1448,7 +1523,7 @@ func run(c *vf.Ctx) {
 		c.Count("evaluations", st.evals)
 		return
 	}
-	c.SetRule("one evaluation = one operation executed on the real view/wrapper tree and compared with the ordered-map model (return values, errors, callback sequences, debug callbacks); histories are generated from the seed: root + random WithRealm/WithExtendedRealm chains over the realm alphabet {\"\",a,ab,a\\xff,\\xff,b} (and two-word concatenations), each view wrapped by 0-3 of flushkv / debug (all commands, filtered, nil callback); keys, prefixes and values come from the same alphabet, half of the keys are chosen among keys present in the view; every argument is a slice of a harness-owned array – exact-size, with 1-8 bytes of canary-filled spare capacity, or carved out of a per-history shared realm table / key table (WithRealm realms as table[:n], so sibling views hold overlapping slices of one array) – and all such arrays are compared after every library call; buffers passed to Set / a finished batch are scribbled and reused for later arguments; a Close is placed in the second half of 60% of the histories and followed by every operation kind. distinct_nontrivial counts distinct histories (hash of the executed step list) that had a nested realm pair, at least one Get hit, one iteration delivering >= 2 entries and one value read through a view other than the writing one")
+	c.SetRule("one evaluation = one operation executed on the real view/wrapper tree and compared with the ordered-map model (return values, errors, callback sequences, debug callbacks); histories are generated from the seed: root + random WithRealm/WithExtendedRealm chains over the realm alphabet {\"\",a,ab,a\\xff,\\xff,b} (and two-word concatenations), each view wrapped by 0-3 of flushkv / debug (all commands, filtered, nil callback); keys, prefixes and values come from the same alphabet, half of the keys are chosen among keys present in the view; every argument is a slice of a harness-owned array – exact-size, with 1-8 bytes of canary-filled spare capacity, or carved out of a per-history shared realm table / key table (WithRealm realms as table[:n], so sibling views hold overlapping slices of one array) – and all such arrays are compared after every library call; buffers passed to Set / a finished batch are scribbled and reused for later arguments; a Close is placed in the second half of 60% of the histories and followed by every operation kind. distinct_nontrivial counts distinct histories (hash of the executed step list) that had a nested realm pair, at least one Get hit, one iteration delivering >= 2 entries and one value read through a view other than the writing one. A second family (disc.go, counters disc_*/reentrant*/held_*/user_panics*) runs shorter histories of the same generator single-goroutine in plain-build, timer-free child processes with an impolite caller: results of Get and keys/values handed to consumers are kept with a deep copy, compared after every later call, then overwritten over their whole capacity and appended to; iteration consumers and debug callbacks call every operation kind on the same view, parents, children and siblings (nested iterations two levels deep, whole batch cycles, new views) and panic (recovered) before the history goes on; the model delivers the entries present when the iteration started and applies the consumer's writes at once; a call that never returns is decided by the Go runtime's dead-lock detector and reproduced in a traced child")
 	nHist := c.Pick(20000, 1000000)
 	nSteps := c.Pick(60, 80)
 	workers := runtime.NumCPU()
@@ -1562,6 +1637,7 @@ func run(c *vf.Ctx) {
 		}
 		merge(st, nt, n)
 	})
+	runDisc(c)
 	c.Require("evaluations", c.Pick(600000, 4000000))
 	c.Require("post_close_checks", 5000)
 	c.Require("cross_view_reads", 1000)
@@ -1577,7 +1653,7 @@ func run(c *vf.Ctx) {
 	c.Require("args_carved_from_shared_table", 50000)
 	c.Require("arg_buffers_reused_after_set_or_commit", 20000)
 	c.Require("sibling_view_pairs_overlapping_in_shared_table", 5000)
-	c.Assume("the model (harness/internal/kvmodel, ~40 lines of map operations) is correct; the callback passed to debug.New is only invoked synchronously")
+	c.Assume("the model (harness/internal/kvmodel, ~40 lines of map operations) is correct; the callback passed to debug.New is only invoked synchronously; the discipline children contain no timers and no second goroutine, so \"all goroutines are asleep\" from the Go runtime means the history's own call waits for ever")
 }
 
-func main() { vf.Main("C04", "exploration", run, nil) }
+func main() { vf.Main("C04", "exploration", run, child) }
